@@ -136,6 +136,10 @@ def plan_seq(pid, tier, seed, ncpu):
             # the release profile has no debug_assert: counter drift shows as drift, not as a panic
             js += con_jobs(bindirs["rel"], workdir, known, pid, "baton", seed + 2, 2, programs=scale(tier, 800, 40000), schedules=scale(tier, 10, 20), variant="rel")
             js += con_jobs(bindirs["rel"], workdir, known, pid, "stress", seed + 2, 2, programs=scale(tier, 160, 8000), schedules=scale(tier, 5, 10), variant="rel")
+        if pid == "C01":
+            # the concurrent reading of "only the latest live value": serialized schedules and full-speed chase / storm programs
+            js += con_jobs(bindirs["dbg"], workdir, known, pid, "chase", seed, 2, programs=scale(tier, 240, 6000), schedules=3)
+            js += con_jobs(bindirs["dbg"], workdir, known, pid, "baton", seed, 2, programs=scale(tier, 800, 20000), schedules=10)
         if pid == "C07":
             js += con_jobs(bindirs["dbg"], workdir, known, pid, "chase", seed, 2, programs=scale(tier, 200, 6000), schedules=3)
         if pid in ("C03", "C07", "C10"):
